@@ -620,7 +620,27 @@ impl std::error::Error for WrappedIoBusError {
     }
 }
 
-pub const N_BUS_ERROR_FLAVOURS: u8 = 6;
+pub const N_BUS_ERROR_FLAVOURS: u8 = 8;
+
+/// Concrete type, kind and text of a bus error as the caller of `Sign` gets to see it: a caller that downcasts the source
+/// to decide what to do (reconnect on a timeout, give up on a protocol error) depends on all three.
+pub fn describe_bus_error(e: &(dyn std::error::Error + Send + Sync + 'static)) -> String {
+    let tag = if let Some(io) = e.downcast_ref::<io::Error>() {
+        format!("io::Error({:?})", io.kind())
+    } else if let Some(fe) = e.downcast_ref::<flipdot_core::FrameError>() {
+        match fe {
+            flipdot_core::FrameError::Io { source } => format!("FrameError::Io({:?})", source.kind()),
+            other => format!("FrameError({:?})", other),
+        }
+    } else if e.downcast_ref::<ScriptedBusError>().is_some() {
+        "ScriptedBusError".to_string()
+    } else if let Some(w) = e.downcast_ref::<WrappedIoBusError>() {
+        format!("WrappedIoBusError({:?})", w.0.kind())
+    } else {
+        "some other type".to_string()
+    };
+    format!("{} \"{}\"", tag, e)
+}
 
 /// The error a scripted bus returns: the controller must treat every kind alike (stop, hand the error up).
 pub fn bus_error(flavour: u8) -> Box<dyn std::error::Error + Send + Sync> {
@@ -631,7 +651,10 @@ pub fn bus_error(flavour: u8) -> Box<dyn std::error::Error + Send + Sync> {
         2 => Box::new(Error::new(ErrorKind::TimedOut, "scripted bus error (timed out)")),
         3 => Box::new(WrappedIoBusError(Error::new(ErrorKind::Interrupted, "scripted bus error (wrapped interrupted)"))),
         4 => Box::new(Error::new(ErrorKind::WouldBlock, "scripted bus error (would block)")),
-        _ => Box::new(WrappedIoBusError(Error::new(ErrorKind::UnexpectedEof, "scripted bus error (wrapped eof)"))),
+        5 => Box::new(WrappedIoBusError(Error::new(ErrorKind::UnexpectedEof, "scripted bus error (wrapped eof)"))),
+        // what a serial bus really hands up: the frame codec's own error type around the port's error
+        6 => Box::new(flipdot_core::FrameError::from(Error::new(ErrorKind::TimedOut, "scripted bus error (frame error, timed out)"))),
+        _ => Box::new(flipdot_core::FrameError::from(Error::new(ErrorKind::Interrupted, "scripted bus error (frame error, interrupted)"))),
     }
 }
 
